@@ -323,7 +323,89 @@ func safeMarshal(st *trie.SlimTrie) (b []byte, err error) {
 	return st.Marshal()
 }
 
+// executeC11 runs the scenario once under its own strategy. If that pass is
+// clean and the solo profile contains synchronising statements (the code under
+// test has grown locks / atomics / pools in its read paths), up to 24 further
+// passes follow, each a sweep that parks one task at one synchronisation-
+// adjacent statement (every task x site x a few visits, PRNG-sampled), some
+// with a second preemption, with rotating post-phase orders. The first failing
+// pass becomes the scenario that is recorded.
 func executeC11(scn *Scenario) *RunResult {
+	res := executeC11Once(scn)
+	if res.Viol != nil || res.Skipped != "" || res.Premise != "" || len(res.SweepCands) == 0 || scn.Strat.Kind == "replay" {
+		return res
+	}
+	res.Counters["systematic_sweep_scenarios"]++
+	for k, cand := range res.SweepCands {
+		sc := scn.clone()
+		sc.Strat = cand
+		sc.PostOrder = k % 3
+		r2 := executeC11Once(sc)
+		res.Steps += r2.Steps
+		res.Counters["systematic_sweep_passes"]++
+		for key, v := range r2.Counters {
+			if len(key) > 6 && (key[:6] == "probe." || key[:6] == "fault.") {
+				res.Counters[key] += v
+			}
+		}
+		if r2.Viol != nil {
+			scn.Strat, scn.PostOrder = sc.Strat, sc.PostOrder
+			res.Viol, res.Segs, res.EvHash = r2.Viol, r2.Segs, r2.EvHash
+			break
+		}
+	}
+	return res
+}
+
+// sweepCandidates enumerates (task, synchronisation-adjacent site, visit)
+// triples from the solo profile and returns a PRNG sample of them as resolved
+// sweep strategies.
+func sweepCandidates(seed uint64, tasks []TaskSpec, refs map[string]unitRef, max int) []Strategy {
+	r := NewRng(seed ^ 0x5157)
+	var all []Strategy
+	for ti := range tasks {
+		agg := map[int]int32{}
+		for ui := range tasks[ti].Units {
+			for site, n := range refs[tasks[ti].Units[ui].key()].sites {
+				if site > 0 && site < len(siteSync) && siteSync[site] {
+					agg[site] += n
+				}
+			}
+		}
+		sites := make([]int, 0, len(agg))
+		for s := range agg {
+			sites = append(sites, s)
+		}
+		sortInts(sites)
+		for _, site := range sites {
+			n := int(agg[site])
+			visits := map[int]bool{0: true, n - 1: true, r.Intn(n): true, r.Intn(n): true}
+			vs := make([]int, 0, len(visits))
+			for v := range visits {
+				vs = append(vs, v)
+			}
+			sortInts(vs)
+			for _, v := range vs {
+				st := Strategy{Kind: "sweep", Seed: r.U64(), Task: ti, Site: site, Skip: v, Resolved: true}
+				if r.Chance(0.3) {
+					st.Second = 1 + int(r.U64()%uint64(1<<uint(r.Range(1, 12))))
+				}
+				all = append(all, st)
+			}
+		}
+	}
+	perm := r.Perm(len(all))
+	var out []Strategy
+	for _, i := range perm {
+		if len(out) >= max {
+			break
+		}
+		out = append(out, all[i])
+	}
+	return out
+}
+
+func executeC11Once(scn *Scenario) *RunResult {
 	c := scn.C11
 	res := &RunResult{Counters: map[string]int64{}}
 	inst, err := c.instances(3)
@@ -333,10 +415,20 @@ func executeC11(scn *Scenario) *RunResult {
 	}
 	subject, twinA, twinB := inst[0], inst[1], inst[2]
 
-	recordSoloSites = scn.Strat.Kind == "sweep" && !scn.Strat.Resolved
+	// the solo site profile is always recorded for generated (not replayed)
+	// runs: if it contains statements that synchronise, the code under test
+	// has grown locks/atomics/pools and most runs are turned into sweeps that
+	// park a task in the gaps between its critical sections (atomicity
+	// violations are invisible to the race detector and need exactly that)
+	recordSoloSites = scn.Strat.Kind != "replay" && !scn.Strat.Resolved
 	refs, total := soloRefs(twinA, c.Tasks)
 	recordSoloSites = false
+	generated := scn.Strat.Kind != "replay" && !scn.Strat.Resolved
+	adaptToSync(&scn.Strat, c.Tasks, refs)
 	resolveSweep(&scn.Strat, c.Tasks, refs)
+	if generated {
+		res.SweepCands = sweepCandidates(scn.Strat.Seed, c.Tasks, refs, 24)
+	}
 	refsB, _ := soloRefs(twinB, c.Tasks)
 	for k, r := range refs {
 		if refsB[k].out != r.out {
@@ -482,15 +574,46 @@ func executeC11(scn *Scenario) *RunResult {
 
 	// after the concurrent phase: no lasting corruption
 	if viol == nil && !sim.stop {
-		post, _ := soloRefs(subject, c.Tasks)
+		// Every unit once more, alone, on the shared instance. A wrong entry left
+		// behind in a cache of the code under test lives only until another call
+		// evicts or repairs it, so the ORDER of these re-runs matters: first the
+		// units of the task a sweep preempted (the call that was interrupted is
+		// the likeliest victim), then everything in reverse order, then
+		// everything in order (each unit up to three times, never de-duplicated).
+		var order, fwd, rev [][2]int
 		for ti := range c.Tasks {
 			for ui := range c.Tasks[ti].Units {
-				u := &c.Tasks[ti].Units[ui]
-				if post[u.key()].out != refs[u.key()].out && viol == nil {
-					viol = &Violation{Prop: "C11", Oracle: "lasting-corruption", Where: "unit=" + u.Kind,
-						Detail:   fmt.Sprintf("after the concurrent phase, %s alone on the shared instance differs from the twin", u.short()),
-						Expected: clip(refs[u.key()].out, 400), Got: clip(post[u.key()].out, 400), Step: sim.steps}
+				fwd = append(fwd, [2]int{ti, ui})
+			}
+		}
+		for i := len(fwd) - 1; i >= 0; i-- {
+			rev = append(rev, fwd[i])
+		}
+		switch scn.PostOrder {
+		case 1:
+			order = append(append(order, rev...), fwd...)
+		case 2:
+			order = append(append(order, fwd...), rev...)
+		default:
+			if scn.Strat.Kind == "sweep" && scn.Strat.Task >= 0 && scn.Strat.Task < len(c.Tasks) {
+				for ui := range c.Tasks[scn.Strat.Task].Units {
+					order = append(order, [2]int{scn.Strat.Task, ui})
 				}
+			}
+			order = append(append(order, rev...), fwd...)
+		}
+		for _, o := range order {
+			u := &c.Tasks[o[0]].Units[o[1]]
+			ref := refs[u.key()]
+			if soloCapped(ref.out) {
+				continue
+			}
+			out, _ := runSoloCapped(subject, u)
+			if out != ref.out {
+				viol = &Violation{Prop: "C11", Oracle: "lasting-corruption", Where: "unit=" + u.Kind,
+					Detail:   fmt.Sprintf("after the concurrent phase, %s alone on the shared instance differs from the twin", u.short()),
+					Expected: clip(ref.out, 400), Got: clip(out, 400), Step: sim.steps}
+				break
 			}
 		}
 		b, err := safeMarshal(subject)
